@@ -184,30 +184,26 @@ Definition cobj_eqb (a b : cobj) : bool :=
   | _, _ => false
   end.
 
+Section Leqb.
+  Variable A : Type.
+  Variable eq : A -> A -> bool.
+  Fixpoint leqb (a b : list A) : bool :=
+    match a, b with
+    | [], [] => true
+    | x :: a', y :: b' => eq x y && leqb a' b'
+    | _, _ => false
+    end.
+End Leqb.
+Arguments leqb {A} eq a b.
+
 Fixpoint stack_eqb (a b : stack) {struct a} : bool :=
   match a, b with
   | Stack ra fa, Stack rb fb =>
     sroot_eqb ra rb &&
-    (fix fouts (x y : list fout) {struct x} : bool :=
-       match x, y with
-       | [], [] => true
-       | FOut i h c :: x', FOut i' h' c' :: y' =>
-           (i =? i') && Bool.eqb h h' &&
-           (fix couts (u v : list cout) {struct u} : bool :=
-              match u, v with
-              | [], [] => true
-              | COut o k :: u', COut o' k' :: v' =>
-                  cobj_eqb o o' &&
-                  (fix stacks (p q : list stack) {struct p} : bool :=
-                     match p, q with
-                     | [], [] => true
-                     | s :: p', s' :: q' => stack_eqb s s' && stacks p' q'
-                     | _, _ => false
-                     end) k k' && couts u' v'
-              | _, _ => false
-              end) c c' && fouts x' y'
-       | _, _ => false
-       end) fa fb
+    leqb (fun x y => match x, y with FOut i h c, FOut i' h' c' =>
+            (i =? i') && Bool.eqb h h' &&
+            leqb (fun u v => match u, v with COut o k, COut o' k' =>
+                    cobj_eqb o o' && leqb stack_eqb k k' end) c c' end) fa fb
   end.
 
 (* ---- the specification side, executable: Trio's own tables
